@@ -21,7 +21,7 @@ def _parse_struct_const(pretty):
 
 def const_agree(rep, prog, rule="CONST-AGREE"):
     rep.rule(rule, "each duplicated range constant agrees with its source in util/t.rs: ITimestamp/IEpochDay/IDate/ITime "
-                   "MIN/MAX, shared::tzif TIMESTAMP_*/OFFSET_*, the twin s/K/L constants of the two Neri-Schneider "
+                   "MIN/MAX, shared::tzif TIMESTAMP_*/OFFSET_*, the millisecond/microsecond/nanosecond views of the instant range (UnixSeconds scaled by 10^k, plus the largest fraction at the upper end), the twin s/K/L constants of the two Neri-Schneider "
                    "routines, the field-contract table, and the two copies of the shared code")
     al = lambda n: ranged_bounds(prog.aliases["jiff::util::t::" + n]["ty"])[1:]
     def cst(crate, path):
@@ -70,6 +70,10 @@ def const_agree(rep, prog, rule="CONST-AGREE"):
             b = cst(crate, "shared::util::itime::IDate::to_epoch_day::" + n)
             if a and b:
                 expect(p + "Neri-Schneider twin " + n, a["v"], b["v"])
+    # the scaled views of the instant range: every whole second of UnixSeconds with every fraction of it
+    smin, smax = al("UnixSeconds")
+    for n, k in (("UnixMilliseconds", 3), ("UnixMicroseconds", 6), ("UnixNanoseconds", 9)):
+        expect("t::%s = UnixSeconds x 10^%d (+ the largest fraction)" % (n, k), al(n), (smin * 10 ** k, smax * 10 ** k + 10 ** k - 1), "src/util/t.rs")
     # the field-contract table against t.rs
     pairs = [(("shared::util::itime::ITimestamp", None, "second"), "UnixSeconds"),
              (("shared::util::itime::IOffset", None, "second"), "SpanZoneOffset"),
